@@ -1238,6 +1238,11 @@ pub fn run_c18(toks: &[&str]) -> Lines {
         let mut footer = ki.metadata.clone();
         let abs_expiry = if expiry == u64::MAX { u64::MAX } else { (now + expiry).saturating_sub(100000) };
         footer.shard_key_expiry = abs_expiry;
+        // `expire .. <key> c<offset>`: the creation time the footer records, relative to now as the expiry is (a shard written by a
+        // machine whose clock is ahead carries a creation time in the local future; the load rule looks at the expiry only)
+        if let Some(c) = op.get(4).and_then(|t| t.strip_prefix('c')) {
+            footer.shard_creation_timestamp = (now + c.parse::<u64>().unwrap()).saturating_sub(100000);
+        }
         let mut fb = vec![];
         footer.serialize(&mut fb).unwrap();
         let fo = ki.metadata.footer_offset as usize;
@@ -1423,6 +1428,7 @@ pub fn run_mgr(toks: &[&str]) -> Lines {
     // (path, key, stored blocks)
     let mut shards: Vec<(std::path::PathBuf, MerkleHash, Vec<MDBCASInfo>)> = vec![];
     let mut files: Vec<Vec<u8>> = vec![];
+    let mut mtimes: Vec<Option<u64>> = vec![];
     for g in &groups {
         if !g.iter().any(|o| o[0] == "C") {
             continue;
@@ -1442,6 +1448,7 @@ pub fn run_mgr(toks: &[&str]) -> Lines {
         let path = dir.path().join(format!("{}.mdb", merklehash::compute_data_hash(&w).hex()));
         files.push(w);
         shards.push((path, key, stored));
+        mtimes.push(g.iter().find(|o| o[0] == "mt").map(|o| o[1].parse::<u64>().unwrap()));
     }
     let cap = *mdb_shard::constants::CHUNK_INDEX_TABLE_MAX_SIZE;
     out.push(("obs", format!("cap={} tgt={}", cap, *mdb_shard::constants::MDB_SHARD_MIN_TARGET_SIZE)));
@@ -1451,6 +1458,11 @@ pub fn run_mgr(toks: &[&str]) -> Lines {
         let mgr = ShardFileManager::new_in_session_directory(dir.path()).await.unwrap();
         for (i, w) in files.iter().enumerate() {
             std::fs::write(&shards[i].0, w).unwrap();
+            // `mt <secs>` in the shard's group: its modification time (decides the order within one register_shards call)
+            if let Some(mt) = mtimes[i] {
+                let f = std::fs::File::options().write(true).open(&shards[i].0).unwrap();
+                f.set_modified(std::time::UNIX_EPOCH + std::time::Duration::from_secs(mt)).unwrap();
+            }
         }
         let mut registered: Vec<usize> = vec![];
         // what the manager was told: (key, stored blocks)
@@ -1474,12 +1486,8 @@ pub fn run_mgr(toks: &[&str]) -> Lines {
                     // several files in one register_shards call; their modification times were set when they were written
                     let mut batch = vec![];
                     for x in op[1].split(',') {
-                        let (i, mt) = x.split_once(':').unwrap();
-                        let i: usize = i.parse().unwrap();
+                        let i: usize = x.parse().unwrap();
                         if i < shards.len() {
-                            let f = std::fs::File::options().write(true).open(&shards[i].0).unwrap();
-                            f.set_modified(std::time::UNIX_EPOCH + std::time::Duration::from_secs(mt.parse().unwrap())).unwrap();
-                            drop(f);
                             batch.push(i);
                         }
                     }
